@@ -62,7 +62,9 @@ Definition v_int (val mn mx : option intv) (p : path) (v : value) : list verror 
       end
   end.
 
+(* nan is unequal to itself: a value declared as nan is matched by nan only (repair F10) *)
 Definition float_value_ok (x expected : float) (prec : option intv) : bool :=
+  if is_nan x || is_nan expected then is_nan x && is_nan expected else
   match prec with
   | None => isclose x expected
   | Some pr => prec_equal x expected (iz pr)
@@ -321,7 +323,8 @@ Definition vr_float (val mn mx : option float) (prec : option intv) (p : path) (
            | None => Ok []
            | Some e =>
                do x <- r_as_float v;
-               do ok <- match prec with
+               do ok <- if is_nan x || is_nan e then Ok (is_nan x && is_nan e) else
+                        match prec with
                         | None => Ok (isclose x e)
                         | Some pr =>
                             catch_ov (do a <- r_round_scaled x (iz pr);
